@@ -366,7 +366,13 @@ func structFault(t *kernel.Tape, enc []byte, tame bool) ([]byte, string) {
 		if r.n.kind == nPrefix || r.n.kind == nRaw {
 			r = all[0]
 		}
-		r.n.lie = []int64{1, -1, 2, -2, 55, 56, 255, 256, 65536, 1 << 24, 1 << 31, 1 << 32, 1 << 40, 1 << 62, -1 << 20}[t.Int(15)]
+		// Sizes: beyond the enclosing item by a little, by 32 MiB..256 MiB (a
+		// decoder believing them is reported through the allocation bound
+		// without hurting the machine) and 2^62 (reported through the
+		// makeslice panic). Nothing in between: a decoder that believed 2^40
+		// would die of a fatal out-of-memory error - a crash of the check, not
+		// a verdict.
+		r.n.lie = []int64{1, -1, 2, -2, 55, 56, 255, 256, 65536, 1 << 24, 1 << 25, 1 << 26, 1 << 28, 1 << 62, -1 << 20}[t.Int(15)]
 		name = "len-lie"
 	case 5: // non-canonical header forms
 		r := all[t.Int(len(all))]
